@@ -390,6 +390,34 @@ def rand_adapt_history(rng, kind, nev, fresh, bats=("u", "b"), flavs=("static", 
     return head + " :: " + " ; ".join(evs)
 
 
+def adapt_quiet_bursts():
+    """a long run of source updates that map to NOTHING, all available within one poll: the adapter's
+    loop must keep polling its inner stream until that answers Pending (C14: a Pending answer right
+    after the inner stream said Ready registers no waker anywhere), however long the run; then one
+    visible update.  Runs of 1, 2, 31..34, 63..66 and 130 diffs, as single items and as one batch"""
+    cases = []
+    setups = [("head static %s 2 [1,2,3]", "PushBack(%d)", "PopFront"),
+              ("head dyninit %s 2 [1,2,3]", "PushBack(%d)", "PopFront"),
+              ("head static %s 0 [1,2,3]", "PushFront(%d)", "PopFront"),
+              ("tail static %s 2 [1,2,3]", "Set(0,%d)", "PopBack"),
+              ("tail dyninit %s 2 [1,2,3]", "Set(0,%d)", "PopBack"),
+              ("skip static %s 200 [1,2,3]", "PushBack(%d)", "Clear"),
+              ("skip dyninit %s 1 [1,2,3]", "Set(0,%d)", "PopBack"),
+              ("filter - %s 0 [1,2,3]", "PushBack(%d)", "Clear"),
+              ("filter_map - %s 85 [1,2,3]", "PushBack(%d)", "Clear")]
+    for head, quiet, loud in setups:
+        for bat in "ub":
+            for n in (1, 2, 31, 32, 33, 34, 63, 64, 65, 66, 130):
+                qs = [quiet % (2 * k + 1 if "filter_map" in head else k + 10) for k in range(n)]
+                if "filter_map" in head:       # mask 85 passes even residues mod 8: odd values are rejected
+                    pass
+                for shape in ("items", "batch"):
+                    src_evs = ["d:" + q for q in qs] if shape == "items" else ["b:" + "|".join(qs)]
+                    for first in ("p", "D"):
+                        cases.append("%s :: %s ; %s ; d:%s ; D" % (head % bat, " ; ".join(src_evs), first, loud))
+    return cases
+
+
 def rand_adapt(rng, kinds, n, maxev=30, **kw):
     cases = []
     for _ in range(n):
@@ -1126,7 +1154,14 @@ def full_random(rng, n, maxops=40):
             elif r < 0.46:
                 body = []
                 tl = length
-                for _ in range(rng.randrange(1, 5)):
+                # now and then a LONG transaction (33..70 operations, mostly pushes at the back: for a Head
+                # they map to nothing once the view is full - one poll must work through all of them)
+                nbody = rng.randrange(33, 71) if rng.random() < 0.06 else rng.randrange(1, 5)
+                if nbody > 30:
+                    for _ in range(nbody):
+                        body.append("t.push_back(%d)" % rng.randrange(40))
+                        tl += 1
+                for _ in range(0 if nbody > 30 else nbody):
                     m, tl = _full_mut(rng, tl)
                     body.append("t." + m)
                     if rng.random() < 0.08:
